@@ -153,7 +153,7 @@ def sensitivity(mod, prop, known_keys):
                     continue
             rep, _ctx = _evaluate(mod, prop, "quick", "default", repo=tmp)
             viol = [v for v in rep.violations if v["key"] not in known_keys]
-            if any(v["rule"] == "extract" for v in viol):
+            if any(v["rule"] == "extract" and v.get("instance") == "facts" for v in viol):   # fact extraction failed (C20/C25 have a rule that is also called `extract`)
                 rec["status"] = "stale"
                 rec["detail"] = "the patched tree does not compile any more"
             else:
